@@ -92,7 +92,7 @@ class _BorisBase(Contract):
         return snapshot({'L': st.L})
 
     def tnode(self, st, j):
-        return None if j == 0 else st.L.time + st.L.dt * st.L.sweep.coll.nodes[j - 1]
+        return None if j == 0 else st.L.status.time + st.L.params.dt * st.L.sweep.coll.nodes[j - 1]
 
 
 class BorisIntegrate(_BorisBase):
@@ -108,7 +108,7 @@ class BorisIntegrate(_BorisBase):
 
     def post(self, st, old, result, exc):
         L, M, sw, P = st.L, st.M, st.L.sweep, st.L.prob
-        dt, Q = L.dt, sw.coll.Qmat
+        dt, Q = L.params.dt, sw.coll.Qmat
         yield 'returns_M_values', exc is None and len(result) == M
         if exc is not None:
             return
@@ -138,7 +138,7 @@ class BorisUpdateNodes(_BorisBase):
 
     def post(self, st, old, result, exc):
         L, M, sw, P = st.L, st.M, st.L.sweep, st.L.prob
-        dt = L.dt
+        dt = L.params.dt
         yield 'returns_normally', exc is None
         if exc is not None:
             return
@@ -165,7 +165,7 @@ class BorisUpdateNodes(_BorisBase):
             yield f'f{m + 1}:is_eval_f', er is not None
             if er is not None:
                 yield f'f{m + 1}:fields_at_new_position', veq(er.u.pos, L.u[m + 1].pos)
-                yield f'f{m + 1}:at_node_time', seq(er.t, L.time + dt * sw.coll.nodes[m])
+                yield f'f{m + 1}:at_node_time', seq(er.t, L.status.time + dt * sw.coll.nodes[m])
             rec = next((r for r in P.boris if vec_syntactic_equal(r.v, L.u[m + 1].vel)), None)
             yield f'node{m + 1}:velocity_is_a_boris_solve', rec is not None
             if rec is not None:
@@ -197,7 +197,7 @@ class BorisEndPoint(_BorisBase):
 
     def post(self, st, old, result, exc):
         L, M, sw, P = st.L, st.M, st.L.sweep, st.L.prob
-        dt, w = L.dt, sw.coll.weights
+        dt, w = L.params.dt, sw.coll.weights
         yield 'returns_normally', exc is None
         if exc is not None:
             return
@@ -336,7 +336,7 @@ class RKNUpdateNodes(Contract):
 
     def post(self, st, old, result, exc):
         L, M, sw, P = st.L, st.M, st.L.sweep, st.L.prob
-        dt, A, Ab, c = L.dt, sw.QI, sw.Qx, sw.coll.nodes
+        dt, A, Ab, c = L.params.dt, sw.QI, sw.Qx, sw.coll.nodes
         yield 'returns_normally', exc is None
         if exc is not None:
             return
@@ -345,7 +345,7 @@ class RKNUpdateNodes(Contract):
             ok = True
             for j in range(1, m):
                 if j not in acc:
-                    acc[j] = P.find_build(L.f[j], L.u[j], L.time + dt * c[j])
+                    acc[j] = P.find_build(L.f[j], L.u[j], L.status.time + dt * c[j])
                 ok = ok and acc[j] is not None
             yield f'stage{m}:accelerations_built_from_earlier_stages_at_their_times', ok
             if not ok:
@@ -359,7 +359,7 @@ class RKNUpdateNodes(Contract):
         yield 'status.updated', L.status.updated is True
 
     def canary(self, st, old, result, exc):
-        yield 'canary:last_stage_position_without_accelerations', veq(st.L.u[st.M].pos, st.u0.pos + st.L.dt * st.L.sweep.coll.nodes[st.M] * st.u0.vel)
+        yield 'canary:last_stage_position_without_accelerations', veq(st.L.u[st.M].pos, st.u0.pos + st.L.params.dt * st.L.sweep.coll.nodes[st.M] * st.u0.vel)
 
 
 CONTRACTS = [BorisIntegrate, BorisUpdateNodes, BorisEndPoint, BorisMatrices, RKNUpdateNodes]
